@@ -30,9 +30,14 @@ def build(outdir, repo=REPO):
     pkg = os.path.join(outdir, "gtirb")
     if os.path.exists(pkg):
         shutil.rmtree(pkg)
-    os.makedirs(os.path.join(pkg, "proto"))
-    for src in glob.glob(os.path.join(repo, "python", "gtirb", "*.py")):
-        shutil.copy(src, pkg)
+    # the whole package tree (sub-packages included), Python sources only
+    shutil.copytree(os.path.join(repo, "python", "gtirb"), pkg,
+                    ignore=lambda d, names: [
+                        n for n in names
+                        if n == "__pycache__" or (
+                            not n.endswith(".py") and not os.path.isdir(
+                                os.path.join(d, n)))])
+    os.makedirs(os.path.join(pkg, "proto"), exist_ok=True)
     open(os.path.join(pkg, "proto", "__init__.py"), "w").close()
     v = read_version(repo)
     with open(os.path.join(repo, "python", "version.py.in")) as fh:
